@@ -63,6 +63,11 @@ fn wr_rejected(key: Option<usize>, blob: usize, off: i64) -> Op {
     Op::Write(s)
 }
 
+/// `link_to` of a file holding blob `blob` under key `key`.
+fn link(key: usize, blob: usize) -> Op {
+    Op::LinkTo(LinkSpec { key: Some(key), blob, target: blob, relative: false, algo: Algo::Sha256, oneshot: true, pre_reads: vec![], declare: Declare::Exact, integ: IntegDecl::None, dotdot_via_symlink: false, vectored_reads: false })
+}
+
 /// A keyed write whose index record is about 9 KiB long (metadata).
 fn wr_big_record(key: usize, blob: usize) -> Op {
     let mut s = WriteSpec::simple(Some(key), blob);
@@ -100,6 +105,10 @@ fn op_sets() -> Vec<(Vec<Op>, Vec<Op>)> {
         // records of more than 8 KiB (more than one buffer of a buffered writer) appended concurrently
         (vec![], vec![wr_big_record(0, 0), wr_big_record(0, 1)]),
         (vec![wr(Some(0), 2)], vec![wr_big_record(0, 0), Op::Remove { key: 0 }, Op::Meta { key: 0 }]),
+        // the bytes are in the cache as a linked file; an ordinary writer stores them again while
+        // somebody reads them
+        (vec![link(1, 0)], vec![wr(Some(0), 0), Op::ReadHash { addr: a(0) }]),
+        (vec![link(1, 1)], vec![wr(None, 1), Op::Read { key: 1 }, Op::Exists { addr: a(1) }]),
         // the temp area lives on another filesystem (publication cannot be a rename)
         (vec![Op::TmpElsewhere], vec![wr(None, 0), Op::ReadHash { addr: a(0) }]),
         (vec![wr(Some(1), 0), Op::TmpElsewhere], vec![wr(Some(0), 0), Op::Read { key: 1 }]),
@@ -225,6 +234,7 @@ fn splice_check(ctx: &Ctx, init: &[Step], init_outs: &[(Out, u128, u128)], ops: 
                     let ok = outs.map(|o| matches!(o[*i].0, Out::Int(_) | Out::Unit)).unwrap_or(true);
                     ok && match &s.op {
                         Op::Write(w) => w.key == Some(k),
+                        Op::LinkTo(l) => l.key == Some(k),
                         Op::Remove { key } => *key == k,
                         _ => false,
                     }
